@@ -418,6 +418,19 @@ class Program:
         """Module-level dict literal with constant string keys."""
         m = self.module(modname)
         sym = m.symbols.get(name)
+        if sym and sym[0] == "const" and isinstance(sym[1], ast.DictComp):
+            # {f.__name__: f for f in (<functions>)}: a table keyed by the functions' own names
+            dc = sym[1]
+            if len(dc.generators) == 1 and not dc.generators[0].ifs and isinstance(dc.generators[0].target, ast.Name):
+                var = dc.generators[0].target.id
+                it = dc.generators[0].iter
+                if isinstance(it, ast.Name):
+                    s2 = m.symbols.get(it.id)
+                    it = s2[1] if s2 and s2[0] == "const" else it
+                key_ok = isinstance(dc.key, ast.Attribute) and dc.key.attr == "__name__" and isinstance(dc.key.value, ast.Name) and dc.key.value.id == var
+                val_ok = isinstance(dc.value, ast.Name) and dc.value.id == var
+                if key_ok and val_ok and isinstance(it, (ast.Tuple, ast.List)) and all(isinstance(e, ast.Name) for e in it.elts):
+                    return {e.id: e for e in it.elts}
         if not sym or sym[0] != "const" or not isinstance(sym[1], ast.Dict):
             raise AnalysisError(f"registry {modname}.{name} not found as dict literal")
         out = {}
